@@ -1,7 +1,7 @@
 /* Plain-harness units of C03 (no DFCC): the real source/allocator_sba.c on explicit states.
  *
  * h_find_bin / h_layout : loop-free code over its whole input domain (mode complete).
- * h_alloc_step / h_free_step / h_metrics / h_cleanup_step : ONE INDUCTIVE STEP each - an ARBITRARY bin state that
+ * h_alloc_step / h_free_step / h_metrics / h_destroy_step : ONE INDUCTIVE STEP each - an ARBITRARY bin state that
  *   satisfies sba_bin_inv (contracts/allocator_sba.h; not only reachable states) -> the real operation -> the invariant
  *   again + the statement of the property for an arbitrary LIVE witness chunk.  BOUNDED by the number of pages (SBA_NP)
  *   and free-list entries (SBA_NF) of the pre-state.
@@ -10,6 +10,7 @@
  *   SBA_BIN      index of the size class under test (0..4)
  *   SBA_NP       page objects of the pre-state: SBA_NP-1 candidates for active_pages + 1 candidate working page
  *   SBA_NF       largest free-list length of the pre-state
+ *   SBA_NO_PARENT_CALLS  the step must not reach the parent allocator (lists have room); SBA_ACQUIRE_MANY_STUB: unit new_destroy
  *   AWS_SBA_PAGE_SIZE  (the source's own configuration macro) is reduced in the *_smallpage units so that a class
  *                with many chunks per page can reach the page-retirement path inside the free-list bound
  */
@@ -47,7 +48,7 @@ static void sba_hook_free(void *p);
 #ifndef SBA_NP
 #    define SBA_NP 3
 #endif
-/* the model's OS: a page request yields a fresh page object (entered into the page table at index SBA_NP), a release kills it */
+/* the model's OS: a page request yields a fresh page object (entered into the first free slot of the page table), a release marks it dead */
 static int sba_hook_memalign(void **out, size_t align, size_t size) {
     g_page_allocs++;
     g_palign_arg = align;
@@ -169,20 +170,6 @@ void aws_mem_release(struct aws_allocator *a, void *p) {
     CHECK(a != NULL, "parent allocator: release precondition");
     if (p != NULL) g_par_releases++;
     free(p);
-}
-int aws_mem_realloc(struct aws_allocator *a, void **ptr, size_t oldsize, size_t newsize) {
-    CHECK(a != NULL && ptr != NULL && newsize > 0, "parent allocator: realloc precondition");
-    if (*ptr != NULL && newsize <= oldsize && nondet_bool()) return AWS_OP_SUCCESS; /* may keep a block that does not grow */
-    void *n = malloc(newsize);
-    __CPROVER_assume(n != NULL);
-    g_par_acquires++;
-    if (*ptr != NULL) {
-        memcpy(n, *ptr, oldsize < newsize ? oldsize : newsize);
-        g_par_releases++;
-        free(*ptr);
-    }
-    *ptr = n;
-    return AWS_OP_SUCCESS;
 }
 #endif
 static struct aws_allocator PARENT;
@@ -483,58 +470,6 @@ void *aws_mem_acquire_many(struct aws_allocator *allocator, size_t count, ...) {
     *p2 = &b->alloc;
     return b;
 }
-/* ---- a short history through the vtable of a freshly constructed allocator: cross-check of the layers on the real,
- *      composed code (sizes symbolic over all classes and beyond) ---- */
-#ifndef SBA_HIST_MAX
-#    define SBA_HIST_MAX 600
-#endif
-static size_t class_or_zero(size_t n) { return n <= 512 ? SBA_CLASS_SIZE(SBA_CLASS_IDX(n)) : 0; }
-void h_history(void) {
-    PARENT = (struct aws_allocator){0};
-    g_par_acquires = g_par_releases = g_page_allocs = g_page_frees = 0;
-    g_mutex_inits = g_mutex_cleanups = 0;
-    g_mutex_init_fails_at_on = false;
-    g_held = NULL; g_locks = g_unlocks = 0;
-    for (unsigned i = 0; i < SBA_MAXP; i++) { g_pt[i] = NULL; g_pt_alive[i] = false; }
-    struct aws_allocator *a = aws_small_block_allocator_new(&PARENT, false);
-    __CPROVER_assume(a != NULL);
-    size_t s1 = 1 + any_below(SBA_HIST_MAX), s2 = 1 + any_below(SBA_HIST_MAX), s3 = 1 + any_below(SBA_HIST_MAX);
-    size_t i1 = any_below(s1), i2 = any_below(s2);
-    uint8_t x = nondet_u8(), y = nondet_u8();
-
-    uint8_t *p = a->mem_acquire(a, s1);
-    uint8_t *q = a->mem_acquire(a, s2);
-    CHECK(p != NULL && q != NULL && __CPROVER_w_ok(p, s1) && __CPROVER_w_ok(q, s2), "history: both blocks writable for the requested size");
-    CHECK(!__CPROVER_same_object(p, q) || __CPROVER_POINTER_OFFSET(p) + s1 <= __CPROVER_POINTER_OFFSET(q) || __CPROVER_POINTER_OFFSET(q) + s2 <= __CPROVER_POINTER_OFFSET(p),
-          "history: two live blocks are disjoint");
-    p[i1] = x;
-    q[i2] = y;
-    CHECK(aws_small_block_allocator_bytes_active(a) == class_or_zero(s1) + class_or_zero(s2), "history: bytes_active == sum of the classes of the live small blocks (2 live)");
-
-    uint8_t *r = a->mem_realloc(a, p, s1, s3);
-    CHECK(r != NULL && __CPROVER_w_ok(r, s3), "history: reallocated block writable for the new size");
-    CHECK(i1 >= s3 || r[i1] == x, "history: realloc keeps the contents up to the smaller size");
-    CHECK(q[i2] == y, "history: realloc does not disturb another live block");
-    CHECK(!__CPROVER_same_object(r, q) || __CPROVER_POINTER_OFFSET(r) + s3 <= __CPROVER_POINTER_OFFSET(q) || __CPROVER_POINTER_OFFSET(q) + s2 <= __CPROVER_POINTER_OFFSET(r),
-          "history: the reallocated block is disjoint from the other live block");
-    size_t r_class = (r == p) ? class_or_zero(s1) : class_or_zero(s3);
-    CHECK(aws_small_block_allocator_bytes_active(a) == r_class + class_or_zero(s2), "history: bytes_active after realloc");
-
-    a->mem_release(a, q);
-    CHECK(i1 >= s3 || r[i1] == x, "history: release does not disturb another live block");
-    CHECK(aws_small_block_allocator_bytes_active(a) == r_class, "history: bytes_active after release");
-    a->mem_release(a, r);
-    CHECK(aws_small_block_allocator_bytes_active(a) == 0, "history: nothing active once everything is released");
-    CHECK(aws_small_block_allocator_bytes_reserved(a) <= 2 * SBA_PAGE && g_page_allocs - g_page_frees <= 2, "history: at most the working pages of the classes used are kept");
-    aws_small_block_allocator_destroy(a);
-    CHECK(g_page_allocs == g_page_frees && g_par_acquires == g_par_releases, "history: destroy returns every page and every parent block");
-    if (s1 <= 512 && s2 <= 512 && SBA_CLASS_IDX(s1) == SBA_CLASS_IDX(s2)) CANARY("history: two blocks of one class");
-    if (s1 <= 512 && s3 > 512) CANARY("history: small -> large");
-    if (s1 > 512 && s3 <= 512) CANARY("history: large -> small");
-    if (s1 > 512 && s3 > 512) CANARY("history: large -> large");
-    if (s1 <= 512 && s3 <= 512 && s3 >= s1) CANARY("history: small grows");
-}
-
 void h_new_destroy(void) {
     PARENT = (struct aws_allocator){0};
     g_par_acquires = g_par_releases = g_page_allocs = g_page_frees = 0;
